@@ -153,7 +153,10 @@ pub fn run(ctx: &Ctx) -> Report {
     let mut rng = Rng::derive(ctx.seed, 0xC02);
     for spec in panels_for(ctx) {
         let syms = syms(spec);
-        let probes: Vec<K> = spec.full.iter().filter(|e| e.after.is_none()).map(|e| e.k).collect();
+        // every full-frame entry point that may be called on its own (the chromatic plane update of the
+        // three-colour trait is a public call of its own, although the alphabet only uses it after the
+        // achromatic one)
+        let probes: Vec<K> = spec.full.iter().filter(|e| e.after.is_none() || e.k == K::Chromatic).map(|e| e.k).collect();
         let maxlen = if ctx.tier_thorough { 3 } else { 2 };
         let small = spec.w * spec.h <= 200 * 200;
         let big = spec.w * spec.h > 300 * 400;
